@@ -60,7 +60,7 @@ func (p *recPersister) UpdateHeaderMetadata(ctx context.Context, h *config.Heade
 	return nil
 }
 
-func (p *recPersister) MoveHeader(ctx context.Context, oldName string, newName string, lastknownrecord, lastknownblock int64) error {
+func (p *recPersister) MoveHeader(ctx context.Context, oldName string, newName string, linkname string, lastknownrecord, lastknownblock int64) error {
 	p.events = append(p.events, "move:"+oldName+">"+newName)
 	p.checkPos("move_lastknown", newName, lastknownrecord, lastknownblock)
 	return nil
